@@ -94,6 +94,25 @@ CHECKS = {
          "DESIGN.md §4 C22"),
 }
 
+CHECKS.update({
+ "C23": ("exactly-once/in-order stream comparison: bytes received by a recording writer vs the SB write log (harness-issued for register histories, predicted by the lock-step reference CPU for programs and blargg ROMs), plus nil-writer and gameboy.New wiring runs",
+         "Register-level histories, generated programs writing random bytes to SB/SC among other I/O, blargg ROM transcripts and runs through gameboy.New(Config{SerialWriter}) must deliver exactly the written bytes once and in order; with no writer the execution is unchanged; SB and SC read FF.",
+         "A failing io.Writer is outside the statement; instructions with operands from volatile memory only contribute the number of writes.",
+         "DESIGN.md §4 C23"),
+ "C24": ("trace-equality monitor: per-frame pixel hashes, display bytes, delivered audio prefix hashes, serial, cartridge RAM, registers and a reflective whole-state fingerprint compared across two in-process runs and a child process with different GOMAXPROCS/GC; audio-attached scenarios under the race detector",
+         "Bundled ROMs and generated programs with random button schedules (through the fake GLFW key callback), video and audio on and off, each run twice in-process and once in a fresh process; every observable and the complete state fingerprint must be identical.",
+         "What is still queued in the speaker channels at shutdown is not part of the audio comparison; programs reaching an undefined opcode are screened out.",
+         "DESIGN.md §4 C24"),
+ "C25": ("differential monitor: each instance's trace (registers every 97 cycles, frame hashes, final state fingerprint) in multi-instance schedules vs its solo run; concurrent goroutines under the Go race detector",
+         "Pairs and triples of gameboy.New instances over different generated programs in every creation order and five interleaving modes (per cycle, bursts, per frame, late creation, create-and-discard) and one goroutine per instance with concurrent creation and injected yields under -race; each instance must match its solo trace and no race may be reported.",
+         "Instances are stepped in runFrame's order through accessor hooks (C26 ties that to runFrame).",
+         "DESIGN.md §4 C25"),
+ "C26": ("twin differential (runFrame vs 17556 documented-order steps, state fingerprints per frame), per-component progress counters over one frame, and frame-counted stop scenarios against the fake display/speakers under the race detector",
+         "Generated programs that write DIV/LCDC/DMA/NR52/timer registers at arbitrary cycles are advanced by the real runFrame and by the documented order and compared after every frame; DIV counter, LCD position, RTC sub-second count, APU clock, DMA completion, CPU cycle count and timer-overflow->IF are asserted directly; close request, cancel inside the poll callback and cancel from another goroutine must stop Run within the stated number of frames and release display and speakers exactly once.",
+         "Time is counted in frames rendered by the fake display; a Run that ignores requests is ended by a logical-time watchdog and reported.",
+         "DESIGN.md §4 C26"),
+})
+
 NOT_APPLICABLE = {
 }
 
